@@ -515,6 +515,10 @@ class Textgrid:
             minimumIntervalLength,
         )
 
+        # Text that cannot be encoded must be found before the file is opened
+        # (opening it for writing empties a file that is already there)
+        textgridStr.encode("utf-8")
+
         with io.open(fn, "w", encoding="utf-8") as fd:
             fd.write(textgridStr)
 
